@@ -467,5 +467,21 @@ def gen_ng_case(rng, nmax=6, nadds=8, nq=6):
             lines.append("closure " + i)
         else:
             lines.append("conclude %s %s" % (rng.pick(added) if added else "T" + "u" * (n - 1), i))
+    # the small public operations on single nogoods / interpretations
+    for _ in range(rng.below(4)):
+        k = rng.below(4)
+        x = "".join(rng.pick("TFuu") for _ in range(n))
+        y = "".join(rng.pick("TFuu") for _ in range(n))
+        if k == 0:
+            lines.append("single %d %d" % (rng.below(n), rng.below(2)))
+        elif k == 1:
+            lines.append("disj %s %s" % (x, y))
+        elif k == 2:
+            lines.append("contra %s %s" % (x, y))
+        else:
+            ps = ["%d:%d" % (rng.below(n), rng.below(2)) for _ in range(rng.below(5))]
+            if ps and rng.chance(1, 2):
+                ps.append(rng.pick(ps))                       # the same pair again: not a contradiction
+            lines.append("pairs " + (",".join(ps) if ps else "-"))
     lines.append("dump")
     return lines, {"n": n, "mode": mode}
